@@ -3,6 +3,7 @@
 package pfcp
 
 import (
+	"net"
 	"github.com/wmnsk/go-pfcp/ie"
 	"github.com/wmnsk/go-pfcp/message"
 
@@ -22,6 +23,16 @@ type zzIso struct {
 	cpA    uint64
 	cpB    uint64
 	idA    [5]uint32 // A's rule id per kind
+	sameIP bool      // node 1 talks from node 0's IP address on another port
+}
+
+// addr: the transport address of node i. The two nodes are either on different hosts or two
+// control-plane functions on one host that differ only in their source port.
+func (z *zzIso) addr(i int) net.Addr {
+	if i == 1 && z.sameIP {
+		return zzAddrA2
+	}
+	return zzAddr(i)
 }
 
 func zzMkSess(n *RemoteNode, lseid, cp uint64) *Sess {
@@ -52,8 +63,9 @@ func zzMkIso() *zzIso {
 	z.dp = &zzDP{}
 	z.s = zzNewServer(z.dp)
 	z.dp.ln = &z.s.lnode
+	z.sameIP = nondetBool("nodes-on-one-host")
 	for i := 0; i < 2; i++ {
-		z.nodes[i] = z.s.NewNode(zzNodeID(i), zzAddr(i), z.dp)
+		z.nodes[i] = z.s.NewNode(zzNodeID(i), z.addr(i), z.dp)
 		z.s.rnodes[zzNodeID(i)] = z.nodes[i]
 	}
 	z.nb = 0
@@ -136,7 +148,7 @@ func zzC05Modify() {
 		one = ie.NewQueryURR(ie.NewURRID(id))
 	}
 	from := len(z.dp.calls)
-	zzDeliver(z.s, zzModReq(2, 7, one), zzAddr(z.na), 7)
+	zzDeliver(z.s, zzModReq(2, 7, one), z.addr(z.na), 7)
 	z.callsOnly(from, 2, "mod")
 	z.bIntact("mod")
 	zzCover("C05.mod.done")
@@ -145,7 +157,7 @@ func zzC05Modify() {
 func zzC05Delete() {
 	z := zzMkIso()
 	from := len(z.dp.calls)
-	zzDeliver(z.s, zzDelReq(2, 7), zzAddr(z.na), 7)
+	zzDeliver(z.s, zzDelReq(2, 7), z.addr(z.na), 7)
 	z.callsOnly(from, 2, "del")
 	z.bIntact("del")
 	_, err := z.s.lnode.Sess(2)
@@ -172,7 +184,7 @@ func zzC05Assoc() {
 	z := zzMkIso()
 	n := nondetChoice("assoc-node", 2)
 	from := len(z.dp.calls)
-	zzDeliver(z.s, zzAssocReq(7, zzNodeID(n)), zzAddr(n), 7)
+	zzDeliver(z.s, zzAssocReq(7, zzNodeID(n)), z.addr(n), 7)
 	// exactly the sessions established under node n are removed
 	_, errA := z.s.lnode.Sess(2)
 	_, errB := z.s.lnode.Sess(1)
@@ -200,7 +212,7 @@ func zzC05ReportRsp() {
 	req := message.NewSessionReportRequest(0, 0, z.cpA, 0, 0, ie.NewReportType(0, 0, 1, 0))
 	rsp := message.NewSessionReportResponse(0, 0, 0, 0, 0, ie.NewCause(ie.CauseSessionContextNotFound))
 	from := len(z.dp.calls)
-	z.s.handleSessionReportResponse(rsp, zzAddr(z.na), req)
+	z.s.handleSessionReportResponse(rsp, z.addr(z.na), req)
 	_, errA := z.s.lnode.Sess(2)
 	zzAssert("C05.reportrsp.a-removed", errA != nil)
 	z.callsOnly(from, 2, "reportrsp")
@@ -214,7 +226,7 @@ func zzC05Establish() {
 	id := nondetU32("id")
 	kind := nondetChoice("kind", 5)
 	from := len(z.dp.calls)
-	zzDeliver(z.s, zzEstReq(7, ie.NewNodeID(zzNodeID(n), "", ""), ie.NewFSEID(nondetU64("new-cp"), []byte{127, 0, 0, 1}, nil), zzCreateIE(kind, id)), zzAddr(n), 7)
+	zzDeliver(z.s, zzEstReq(7, ie.NewNodeID(zzNodeID(n), "", ""), ie.NewFSEID(nondetU64("new-cp"), []byte{127, 0, 0, 1}, nil), zzCreateIE(kind, id)), z.addr(n), 7)
 	z.callsOnly(from, 3, "est")
 	z.bIntact("est")
 	zzAssert("C05.est.a-rules-kept", z.dp.rulesOf(2) == 5)
@@ -253,7 +265,7 @@ func zzC05Takeover() {
 	if target == 1 {
 		nid = zzNodeID(1 - z.na)
 	}
-	zzDeliver(z.s, zzModReq(2, 7, ie.NewNodeID(nid, "", "")), zzAddr(z.na), 7)
+	zzDeliver(z.s, zzModReq(2, 7, ie.NewNodeID(nid, "", "")), z.addr(z.na), 7)
 	z.bIntact("takeover")
 	// now re-associate one of the three ids
 	which := nondetChoice("reassoc", 3)
@@ -287,7 +299,7 @@ func zzC05Takeover() {
 // the OTHER node, then A's former node re-associates: that must remove nothing of the other node.
 func zzC05DeleteReuseReassoc() {
 	z := zzMkIso()
-	zzDeliver(z.s, zzDelReq(2, 7), zzAddr(z.na), 7)
+	zzDeliver(z.s, zzDelReq(2, 7), z.addr(z.na), 7)
 	_, err := z.s.lnode.Sess(2)
 	zzAssert("C05.reuse2.a-gone", err != nil)
 	other := 1 - z.na
@@ -296,7 +308,7 @@ func zzC05DeleteReuseReassoc() {
 	n.FARIDs[5] = struct{}{}
 	z.dp.rules = append(z.dp.rules, zzRuleRec{2, zzFAR, 5, zzPresent})
 	from := len(z.dp.calls)
-	zzDeliver(z.s, zzAssocReq(8, zzNodeID(z.na)), zzAddr(z.na), 8)
+	zzDeliver(z.s, zzAssocReq(8, zzNodeID(z.na)), z.addr(z.na), 8)
 	got, err := z.s.lnode.Sess(2)
 	zzAssert("C05.reuse2.new-owner-session-survives-old-owners-reassociation", err == nil && got == n)
 	zzAssert("C05.reuse2.new-owner-rules-kept", z.dp.rulesOf(2) == 1)
